@@ -67,3 +67,9 @@ META["C12"] = {
     "level_note": "blocked-forever verdicts come with the goroutine dump frame; cache internals read through a hook running in the aggregator goroutine (race-free)",
     "technique": "runtime monitoring: stalled-consumer stress with goroutine-dump oracle; hooked cache-size monitor under partial floods",
 }
+META["C10"] = {
+    "level": "fault_enumeration",
+    "level_text": "for every generated peer set (mix and order of faulty/lying/honest sync peers), start height, target, mode and scheme, the beacons written by sync were valid, in order and the node converged when an honest peer existed; chain check/repair results equalled the damage the harness inflicted",
+    "level_note": "peer behaviours are drawn from a fixed list of 11 fault kinds; peer order is shuffled by drand's own math/rand (sampled, not enumerated)",
+    "technique": "runtime monitoring under injected peer faults: base-store tap oracle (validity, order) + bounded-convergence oracle + differential check of CheckPastBeacons against inflicted damage",
+}
